@@ -13,11 +13,41 @@
 // any row is computed.  The screen is a double-precision mirror of the geometry set up in
 // ProjMatrixByBinUsingRayTracing::calculate_proj_matrix_elems_for_one_bin / ray_trace_one_lor
 // (s, phi, t, tan(theta), voxel sizes, FOV radius only); it never looks at a computed row.
+//
+// Extension (third session): the SAME histories are run on every ProjMatrixByBin implementation that can be set up on
+// generated data (Case key "kind"):
+//   "rt"     ProjMatrixByBinUsingRayTracing (as before; optionally configured through parse() instead of the setters,
+//            key "via_parse"), oracle: fresh symmetry-free cache-free ray-tracing matrix + tie screen;
+//   "interp" ProjMatrixByBinUsingInterpolation (relies on ProjMatrixByBin::set_up for its cache; switches only through
+//            parse()), oracles: (1) row == row of a FRESH interpolation matrix with the same settings and the cache disabled,
+//            to 1e-6 of the row maximum (same arithmetic, other history), (2) row == row of a fresh interpolation matrix with
+//            all symmetries off (tolerance TOL_INTERP_SYMFREE, no tie screen: the interpolation kernel is continuous);
+//   "file"   ProjMatrixByBinFromFile reading a matrix that the library wrote itself (write_to_file) from a ray-tracing
+//            matrix with the switches of the case, oracles: (1) row == row of a fresh cache-free ray-tracing matrix with the
+//            same switches (the matrix that was written), to 1e-6, (2) the symmetry-free ray-tracing row as for "rt".
+//   "spect"  ProjMatrixByBinSPECTUB (no symmetries; computes a whole view at a time INTO the cache) on generated single-segment
+//            arc-corrected data, oracle: row == row of a fresh object with the same settings (requested twice, see finding S1).
+// New events: clone() of the used object (OP_CLONE), cache-mode switches WITHOUT a following set_up, re-parse of the
+// parameters on the used object; new clauses on every get: find_basic_bin / is_basic / transform_bin_coordinates agree with
+// find_symmetry_operation_from_basic_bin (DataSymmetriesForBins.h documents all four).
 #include "explicit_p.h"
 #include "stir/recon_buildblock/DataSymmetriesForBins.h"
+#include "stir/recon_buildblock/DataSymmetriesForBins_PET_CartesianGrid.h"
 #include "stir/recon_buildblock/SymmetryOperation.h"
+#include "stir/recon_buildblock/ProjMatrixByBinUsingInterpolation.h"
+#include "stir/recon_buildblock/ProjMatrixByBinFromFile.h"
+#include "stir/recon_buildblock/ProjMatrixByBinSPECTUB.h"
+#include "stir/ProjDataInterfile.h"
+#include "stir/ExamInfo.h"
+#include "stir/IO/OutputFileFormat.h"
+#include "stir/IO/read_from_file.h"
+#include "stir/DiscretisedDensity.h"
 #include <typeinfo>
 #include <iostream>
+#include <fstream>
+#include <sstream>
+#include <filesystem>
+#include <unistd.h>
 #include "stir/ProjDataInfoCylindrical.h"
 #include "stir/ProjDataInfoCylindricalNoArcCorr.h"
 #include <algorithm>
@@ -41,7 +71,76 @@ enum OpCode
   OP_SYM = 6,    // [6,k]           flip do_symmetry switch k, then set_up(current)
   OP_CACHE = 7,  // [7,mode]        cache mode 0 disabled /1 basic bins only /2 all, then set_up(current)
   OP_OPT = 8,    // [8,k,v]         k=0: num_tangential_LORs=1+v%4, k=1: flip restrict_to_cylindrical_FOV; then set_up(current)
-  OP_SWEEP = 9   // [9,seed]        ALL bins of the current geometry in a pseudo-random order
+  OP_SWEEP = 9,  // [9,seed]        ALL bins of the current geometry in a pseudo-random order
+  OP_CLONE = 10  // [10]            the object under test is replaced by its clone() (the original is destroyed)
+};
+// OP_CACHE takes an optional third element: [7,mode,1] = switch the cache mode WITHOUT calling set_up afterwards
+// (enable_cache / store_only_basic_bins_in_cache do not document that a set_up is needed)
+
+enum Kind
+{
+  K_RT = 0,
+  K_INTERP = 1,
+  K_FILE = 2,
+  K_SPECT = 3
+};
+inline Kind
+kind_of(const json& c)
+{
+  const std::string k = c.value("kind", std::string("rt"));
+  return k == "interp" ? K_INTERP : (k == "file" ? K_FILE : (k == "spect" ? K_SPECT : K_RT));
+}
+inline const char*
+kind_name(Kind k)
+{
+  return k == K_INTERP ? "interp" : (k == K_FILE ? "file" : (k == K_SPECT ? "spect" : "rt"));
+}
+//! exclusions of known classes are switched off by VERIF_NO_EXCLUDE=1 (all) or C03_NO_EXCLUDE=<tags> (e.g. "F3,S1": only these).
+//! REPAIRED lists the tags of findings whose repair has been committed in /repo: their exclusions are off for good, the
+//! classes are part of the normal search and their former probes are regression inputs under replays/C03/fixed_*.json.
+const char* const REPAIRED = "F3,F5";
+inline bool
+no_exclude(const char* tag = nullptr)
+{
+  const char* e = std::getenv("VERIF_NO_EXCLUDE");
+  if (e && *e && std::string(e) != "0")
+    return true;
+  if (tag && std::string(REPAIRED).find(tag) != std::string::npos)
+    return true;
+  const char* t = std::getenv("C03_NO_EXCLUDE");
+  return tag && t && std::string(t).find(tag) != std::string::npos;
+}
+
+// same arithmetic, other history (cache / set-up sequence / clone / file round trip): rows must agree to float printing noise
+const double TOL_SAME = 1e-6;
+// interpolation matrix, symmetry-derived row vs directly computed row (calibrated, see props.d/C03.py)
+inline double
+tol_interp_symfree()
+{
+  static const double t = std::getenv("C03_TOL_INTERP") ? std::atof(std::getenv("C03_TOL_INTERP")) : 3e-4;
+  return t;
+}
+
+// ---- temporary files (kind "file"): one directory per case under VERIF_TMP, removed at the end of the case ----
+struct CaseDir
+{
+  std::string path;
+  CaseDir()
+  {
+    static long counter = 0;
+    const char* e = std::getenv("VERIF_TMP");
+    const std::string root = (e && *e) ? std::string(e) : cat("/tmp/verif_", long(getpid()));
+    path = cat(root, "/c03_", long(getpid()), "_", counter++);
+    std::error_code ec;
+    std::filesystem::remove_all(path, ec);
+    std::filesystem::create_directories(path, ec);
+  }
+  ~CaseDir()
+  {
+    std::error_code ec;
+    if (!std::getenv("C03_KEEP_TMP"))
+      std::filesystem::remove_all(path, ec);
+  }
 };
 
 const double SCREEN = 1e-3; // voxel units, from the property text / DESIGN "Tie screen"
@@ -282,8 +381,75 @@ show(const Bin& b)
   return cat("bin(seg=", b.segment_num(), ",view=", b.view_num(), ",ax=", b.axial_pos_num(), ",tang=", b.tangential_pos_num(), ",tof=", b.timing_pos_num(), ")");
 }
 
+// ---- sparse rows ----------------------------------------------------------------------------------
+struct SparseRow
+{
+  std::vector<std::pair<std::tuple<int, int, int>, double>> e; // sorted by voxel (z,y,x)
+  double mx = 0;
+};
+inline void
+to_sparse(const ProjMatrixElemsForOneBin& r, SparseRow& out)
+{
+  out.e.clear();
+  out.mx = 0;
+  for (auto it = r.begin(); it != r.end(); ++it)
+    {
+      out.e.emplace_back(std::make_tuple(it->coord1(), it->coord2(), it->coord3()), double(it->get_value()));
+      out.mx = std::max(out.mx, double(it->get_value()));
+    }
+  std::sort(out.e.begin(), out.e.end());
+}
+struct Diff
+{
+  double worst = 0;
+  std::tuple<int, int, int> at{ 0, 0, 0 };
+  double wa = 0, wb = 0;
+};
+//! largest |a_v - b_v| on the union of the voxels
+inline Diff
+max_diff(const SparseRow& A, const SparseRow& B)
+{
+  Diff d;
+  const auto &a = A.e, &b = B.e;
+  for (std::size_t ia = 0, ib = 0; ia < a.size() || ib < b.size();)
+    {
+      double va = 0, vb = 0;
+      std::tuple<int, int, int> at;
+      if (ib >= b.size() || (ia < a.size() && a[ia].first < b[ib].first))
+        {
+          at = a[ia].first;
+          va = a[ia++].second;
+        }
+      else if (ia >= a.size() || b[ib].first < a[ia].first)
+        {
+          at = b[ib].first;
+          vb = b[ib++].second;
+        }
+      else
+        {
+          at = a[ia].first;
+          va = a[ia++].second;
+          vb = b[ib++].second;
+        }
+      if (std::fabs(va - vb) > d.worst)
+        {
+          d.worst = std::fabs(va - vb);
+          d.at = at;
+          d.wa = va;
+          d.wb = vb;
+        }
+    }
+  return d;
+}
+
 struct Run
 {
+  Kind kind = K_RT;
+  bool via_parse = false;      // rt: the object is configured through parse() (keywords) instead of the setters
+  bool pli = true, jac = true; // interp: use_piecewise_linear_interpolation / use_exact_Jacobian as requested
+  int psf = 0;                 // spect: psf type 0 Geometrical / 1 2D / 2 3D
+  int mask = 0;                // spect: mask type 0 No / 1 Cylinder
+  bool keep = true;            // spect: keep_all_views_in_cache
   Geo geo[2];
   shared_ptr<VoxelsOnCartesianGrid<float>> img[2];
   int g = 0, i = 0;
@@ -292,42 +458,198 @@ struct Run
   int lors = 1;
   bool cyl = true;
   bool adb = false;
-  shared_ptr<ProjMatrixByBinUsingRayTracing> m;
+  shared_ptr<ProjMatrixByBin> m;
   std::map<RefKey, Ref> refs;
+  // fresh cache-free objects of the class under test: (g, i, symmetry bits, pli, jac, lors, cylFOV, adb) -> object set up once
+  typedef std::tuple<int, int, int, int, int, int, int, int> ClsKey;
+  std::map<ClsKey, shared_ptr<ProjMatrixByBin>> cls_refs;
+  std::map<ClsKey, double> scales; // interp_scale()
+  // kind "file": the matrix file written by the library at the start of the case (geometry A, image A, the switches at that moment)
+  std::unique_ptr<CaseDir> dir;
+  std::string hpm;
+  // model of the interpolation matrix' use_piecewise_linear_interpolation member (finding C03-F3, see do_setup)
+  bool interp_pli_member = true;
   std::vector<BinKey> requested; // all bins requested so far (for OP_REGET)
   std::set<BinKey> since_event;  // bins requested since the last clear/set_up/flip (statistics only)
+  std::set<BinKey> basics_via_related; // basic bins of the NON-basic bins requested since the last event (statistics only)
   bool had_event = false;        // a clear/set_up/flip happened after at least one get
   long n_gets = 0, n_screened = 0, n_nontrivial = 0;
   std::string trail; // short description of the events so far, for messages
 
-  void apply_switches(ProjMatrixByBinUsingRayTracing& mm) const
+  ProjMatrixByBinUsingRayTracing& rt() const { return dynamic_cast<ProjMatrixByBinUsingRayTracing&>(*m); }
+
+  int symbits(bool with_sym) const
+  {
+    int b = 0;
+    for (int k = 0; k < 5; ++k)
+      if (with_sym && sym[k])
+        b |= 1 << k;
+    return b;
+  }
+
+  void apply_cache_mode(ProjMatrixByBin& mm, int cache_mode) const
+  {
+    mm.enable_cache(cache_mode != 0);
+    mm.store_only_basic_bins_in_cache(cache_mode == 1);
+  }
+
+  void apply_switches(ProjMatrixByBinUsingRayTracing& mm) const { apply_switches(mm, true, cache); }
+  void apply_switches(ProjMatrixByBinUsingRayTracing& mm, bool with_sym, int cache_mode) const
   {
     mm.set_num_tangential_LORs(lors);
     mm.set_restrict_to_cylindrical_FOV(cyl);
-    mm.set_do_symmetry_90degrees_min_phi(sym[0]);
-    mm.set_do_symmetry_180degrees_min_phi(sym[1]);
-    mm.set_do_symmetry_swap_segment(sym[2]);
-    mm.set_do_symmetry_swap_s(sym[3]);
-    mm.set_do_symmetry_shift_z(sym[4]);
-    mm.enable_cache(cache != 0);
-    mm.store_only_basic_bins_in_cache(cache == 1);
+    mm.set_do_symmetry_90degrees_min_phi(with_sym && sym[0]);
+    mm.set_do_symmetry_180degrees_min_phi(with_sym && sym[1]);
+    mm.set_do_symmetry_swap_segment(with_sym && sym[2]);
+    mm.set_do_symmetry_swap_s(with_sym && sym[3]);
+    mm.set_do_symmetry_shift_z(with_sym && sym[4]);
+    apply_cache_mode(mm, cache_mode);
   }
 
-  //! would a FRESH matrix with the current switches accept (geometry gg, image ii)?  (error() at set_up = rejected configuration)
+  std::string sym_keys(bool with_sym) const
+  {
+    std::ostringstream s;
+    auto on = [&](int k) { return (with_sym && sym[k]) ? 1 : 0; };
+    s << "do_symmetry_90degrees_min_phi:=" << on(0) << "\n"
+      << "do_symmetry_180degrees_min_phi:=" << on(1) << "\n"
+      << "do_symmetry_swap_segment:=" << on(2) << "\n"
+      << "do_symmetry_swap_s:=" << on(3) << "\n"
+      << "do_symmetry_shift_z:=" << on(4) << "\n";
+    return s.str();
+  }
+  //! keywords of ProjMatrixByBinUsingRayTracing::initialise_keymap (+ the two of ProjMatrixByBin)
+  std::string rt_par(bool with_sym, int cache_mode) const
+  {
+    std::ostringstream s;
+    s << "Ray Tracing Matrix Parameters:=\n"
+      << "disable caching:=" << (cache_mode == 0 ? 1 : 0) << "\n"
+      << "store_only_basic_bins_in_cache:=" << (cache_mode == 1 ? 1 : 0) << "\n"
+      << "restrict to cylindrical FOV:=" << (cyl ? 1 : 0) << "\n"
+      << "number of rays in tangential direction to trace for each bin:=" << lors << "\n"
+      << "use actual detector boundaries:=" << (adb ? 1 : 0) << "\n"
+      << sym_keys(with_sym) << "End Ray Tracing Matrix Parameters:=\n";
+    return s.str();
+  }
+  //! keywords of ProjMatrixByBinUsingInterpolation::initialise_keymap
+  std::string interp_par(bool with_sym, int cache_mode) const
+  {
+    std::ostringstream s;
+    s << "Interpolation Matrix Parameters:=\n"
+      << "use_piecewise_linear_interpolation:=" << (pli ? 1 : 0) << "\n"
+      << "use_exact_Jacobian:=" << (jac ? 1 : 0) << "\n"
+      << "disable caching:=" << (cache_mode == 0 ? 1 : 0) << "\n"
+      << "store_only_basic_bins_in_cache:=" << (cache_mode == 1 ? 1 : 0) << "\n"
+      << sym_keys(with_sym) << "End Interpolation Matrix Parameters:=\n";
+    return s.str();
+  }
+
+  //! keywords of ProjMatrixByBinSPECTUB::initialise_keymap (no attenuation: that needs an attenuation image file)
+  std::string spect_par(int cache_mode) const
+  {
+    std::ostringstream s;
+    s << "Projection Matrix By Bin SPECT UB Parameters:=\n"
+      << "disable caching:=" << (cache_mode == 0 ? 1 : 0) << "\n"
+      << "store_only_basic_bins_in_cache:=" << (cache_mode == 1 ? 1 : 0) << "\n"
+      << "maximum number of sigmas:= 2.0\n"
+      << "psf type:=" << (psf == 0 ? "Geometrical" : (psf == 1 ? "2D" : "3D")) << "\n"
+      << "collimator slope := " << (psf == 0 ? 0. : 0.0163) << "\n"
+      << "collimator sigma 0(cm) := " << (psf == 0 ? 0. : 0.1466) << "\n"
+      << "attenuation type := No\n"
+      << "mask type := " << (mask == 0 ? "No" : "Cylinder") << "\n"
+      << "keep_all_views_in_cache:=" << (keep ? 1 : 0) << "\n"
+      << "End Projection Matrix By Bin SPECT UB Parameters:=\n";
+    return s.str();
+  }
+
+  //! (re-)configure an object of the class under test with the current switches (the only way for "interp" and "file")
+  void configure(ProjMatrixByBin& mm, bool with_sym, int cache_mode) const
+  {
+    switch (kind)
+      {
+      case K_RT:
+        {
+          ProjMatrixByBinUsingRayTracing& r = dynamic_cast<ProjMatrixByBinUsingRayTracing&>(mm);
+          if (via_parse)
+            {
+              std::istringstream is(rt_par(with_sym, cache_mode));
+              if (!r.parse(is))
+                error("harness: cannot parse the ray tracing matrix parameters");
+            }
+          else
+            {
+              r.set_use_actual_detector_boundaries(adb);
+              apply_switches(r, with_sym, cache_mode);
+            }
+          break;
+        }
+      case K_INTERP:
+        {
+          std::istringstream is(interp_par(with_sym, cache_mode));
+          if (!dynamic_cast<ProjMatrixByBinUsingInterpolation&>(mm).parse(is))
+            error("harness: cannot parse the interpolation matrix parameters");
+          break;
+        }
+      case K_SPECT:
+        {
+          std::istringstream is(spect_par(cache_mode));
+          if (!dynamic_cast<ProjMatrixByBinSPECTUB&>(mm).parse(is))
+            error("harness: cannot parse the SPECT UB matrix parameters");
+          break;
+        }
+      case K_FILE:
+        {
+          // the header written by ProjMatrixByBinFromFile::write_to_file (symmetries, templates, data file); it has no cache keywords
+          if (!dynamic_cast<ProjMatrixByBinFromFile&>(mm).parse(hpm.c_str()))
+            error("harness: cannot parse the matrix file header");
+          apply_cache_mode(mm, cache_mode);
+          break;
+        }
+      }
+  }
+  shared_ptr<ProjMatrixByBin> make_object(bool with_sym, int cache_mode) const
+  {
+    shared_ptr<ProjMatrixByBin> p;
+    switch (kind)
+      {
+      case K_RT: p.reset(new ProjMatrixByBinUsingRayTracing()); break;
+      case K_INTERP: p.reset(new ProjMatrixByBinUsingInterpolation()); break;
+      case K_FILE: p.reset(new ProjMatrixByBinFromFile()); break;
+      case K_SPECT: p.reset(new ProjMatrixByBinSPECTUB()); break;
+      }
+    configure(*p, with_sym, cache_mode);
+    return p;
+  }
+
+  //! would a FRESH object of the class under test with the current switches accept (geometry gg, image ii)?  (error() at set_up = rejected configuration)
   bool probe(int gg, int ii, std::string& why) const
   {
     try
       {
-        ProjMatrixByBinUsingRayTracing fresh;
-        fresh.set_use_actual_detector_boundaries(adb);
-        apply_switches(fresh);
-        fresh.set_up(geo[gg].pdi, img[ii]);
+        if (kind == K_FILE && hpm.empty())
+          { // before the file exists: the ray-tracing matrix it will be written from
+            ProjMatrixByBinUsingRayTracing fresh;
+            apply_switches(fresh);
+            fresh.set_up(geo[gg].pdi, img[ii]);
+            ProjMatrixElemsForOneBin row;
+            const ProjDataInfo& p = *geo[gg].pdi;
+            for (int sg = p.get_min_segment_num(); sg <= p.get_max_segment_num(); ++sg)
+              fresh.get_proj_matrix_elems_for_one_bin(row, Bin(sg, p.get_min_view_num(), p.get_min_axial_pos_num(sg), 0, 0));
+            return true;
+          }
+        shared_ptr<ProjMatrixByBin> fresh = make_object(true, cache);
+        fresh->set_up(geo[gg].pdi, img[ii]);
         // calculate_proj_matrix_elems_for_one_bin has one more error() ("need sampling distance in axial direction to be an
         // integer multiple of the voxel size", tested to 1e-3 per segment, while set_up tests to 1e-2): ask for one row per segment
         ProjMatrixElemsForOneBin row;
         const ProjDataInfo& p = *geo[gg].pdi;
         for (int sg = p.get_min_segment_num(); sg <= p.get_max_segment_num(); ++sg)
-          fresh.get_proj_matrix_elems_for_one_bin(row, Bin(sg, p.get_min_view_num(), p.get_min_axial_pos_num(sg), 0, 0));
+          fresh->get_proj_matrix_elems_for_one_bin(row, Bin(sg, p.get_min_view_num(), p.get_min_axial_pos_num(sg), 0, 0));
+        if (kind == K_SPECT)
+          { // the SPECT UB matrix computes a view when its first row is requested and has error()s of its own there
+            // ("Error weight3d: psf length greater than maxszb in calc_psf_bin"): one row of every view
+            for (int v = p.get_min_view_num(); v <= p.get_max_view_num(); ++v)
+              fresh->get_proj_matrix_elems_for_one_bin(row, Bin(0, v, p.get_min_axial_pos_num(0), 0, 0));
+          }
       }
     catch (const stir_verif::AssertionFailure&)
       {
@@ -341,9 +663,12 @@ struct Run
     return true;
   }
 
+  bool effective_adb() const { return kind == K_RT ? rt().get_use_actual_detector_boundaries() : false; }
+
+  //! symmetry-free cache-free ray-tracing matrix + the geometry the tie screen needs (kinds "rt" and "file")
   const Ref& ref()
   {
-    const RefKey k{ g, i, lors, cyl, m->get_use_actual_detector_boundaries() };
+    const RefKey k{ g, i, lors, cyl, effective_adb() };
     auto it = refs.find(k);
     if (it != refs.end())
       return it->second;
@@ -362,6 +687,28 @@ struct Run
     R.cyl_fov = cyl;
     R.adb = R.m->get_use_actual_detector_boundaries();
     return refs.emplace(k, R).first->second;
+  }
+
+  //! fresh cache-free object "same class, same settings" (with_sym) / "same class, all symmetries off" (!with_sym).
+  //! For kind "file" it is the ray-tracing matrix the file was written from (with_sym only).
+  ProjMatrixByBin& cls_ref(bool with_sym)
+  {
+    const ClsKey k(g, i, symbits(with_sym), kind == K_INTERP ? int(pli) : (kind == K_SPECT ? psf : 0), kind == K_INTERP ? int(jac) : (kind == K_SPECT ? mask : 0),
+                   kind == K_INTERP ? 0 : (kind == K_SPECT ? int(keep) : lors), (kind == K_INTERP || kind == K_SPECT) ? 0 : int(cyl), int(effective_adb()));
+    auto it = cls_refs.find(k);
+    if (it != cls_refs.end())
+      return *it->second;
+    shared_ptr<ProjMatrixByBin> p;
+    if (kind == K_FILE)
+      {
+        shared_ptr<ProjMatrixByBinUsingRayTracing> r(new ProjMatrixByBinUsingRayTracing());
+        apply_switches(*r, with_sym, 0);
+        p = r;
+      }
+    else
+      p = make_object(with_sym, kind == K_SPECT ? 1 : 0);
+    p->set_up(geo[g].pdi, img[i]);
+    return *cls_refs.emplace(k, p).first->second;
   }
 
   Bin bin_from(long a, long b, long c, long d, long e) const
@@ -387,13 +734,140 @@ struct Run
     if (trail.size() < 600)
       trail += what + ";";
     since_event.clear();
+    basics_via_related.clear();
     if (n_gets > 0)
       had_event = true;
+  }
+
+  //! does the interpolation matrix use piecewise-linear interpolation for this image (ProjMatrixByBinUsingInterpolation::set_up)?
+  bool interp_pli_fits(int gg, int ii) const
+  {
+    const float rel = img[ii]->get_voxel_size().z() / geo[gg].pdi->get_sampling_in_m(Bin(0, 0, 0, 0));
+    return std::fabs(rel - .5) < .01;
+  }
+  //! to be called just before m->set_up(geo[gg], img[ii]) for kind "interp".
+  // FINDING C03-F3 (see REPORT): ProjMatrixByBinUsingInterpolation::set_up overwrites the PARSED member
+  // use_piecewise_linear_interpolation_now with "false" when the image's z spacing is not half the axial sampling; a later
+  // set_up of the same object for an image that does fit keeps linear interpolation, a fresh object uses piecewise-linear.
+  // Narrow exclusion: exactly that event (requested, member already switched off, new image fits) is preceded by a re-parse
+  // of the parameters (which resets the member); VERIF_NO_EXCLUDE=1 switches the work-around off.
+  void interp_before_setup(int gg, int ii)
+  {
+    if (kind != K_INTERP)
+      return;
+    if (pli && !interp_pli_member && interp_pli_fits(gg, ii))
+      {
+        if (!no_exclude("F3"))
+          {
+            stats().excluded_known++;
+            stats().count("excluded:C03:interpolation-matrix:piecewise-linear-switched-off-by-earlier-set_up");
+            configure(*m, true, cache);
+            interp_pli_member = pli;
+          }
+        else
+          stats().count("known class executed: interpolation matrix, piecewise-linear switched off by an earlier set_up");
+      }
+    if (interp_pli_member && !interp_pli_fits(gg, ii))
+      interp_pli_member = false;
+  }
+  // FINDING C03-F5 (see REPORT): ProjMatrixByBinUsingInterpolation::get_element takes the voxel extent along s as
+  //   "cphi > sphi ? voxel_size.x() : voxel_size.y()"   (ProjMatrixByBinUsingInterpolation.cxx:243)
+  // i.e. without absolute values: for views beyond 135 degrees (cphi < -sphi, the s axis is closer to the x axis) it takes
+  // the y size, while the row derived from the mirrored basic view (0..45 degrees) was computed with the x size.  With
+  // vx != vy (and a bin size below the larger of the two) the symmetry-derived row and the directly computed row are two
+  // different interpolation kernels.  Narrow exclusion of oracle (2): exactly the gets for which the expression differs
+  // between the bin and its basic bin AND changes the kernel width.
+  bool interp_known_anisotropic(const Bin& bin) const
+  {
+    const CartesianCoordinate3D<float> vs = img[i]->get_voxel_size();
+    if (vs.x() == vs.y())
+      return false;
+    Bin basic = bin;
+    m->get_symmetries_ptr()->find_basic_bin(basic);
+    const ProjDataInfo& p = *geo[g].pdi;
+    auto width = [&](const Bin& b) {
+      const float phi = p.get_phi(b);
+      const float cphi = cos(phi), sphi = sin(phi);
+      return std::max(cphi > sphi ? vs.x() : vs.y(), p.get_sampling_in_s(b));
+    };
+    return width(bin) != width(basic);
+  }
+  // FINDING C03-F7 (see REPORT): calculate_proj_matrix_elems_for_one_bin leaves its loops over x, y and z at the first zero
+  // after a non-zero element ("In each dimension, we ASSUME that the non-zero range is CONNECTED",
+  // ProjMatrixByBinUsingInterpolation.cxx:325-329).  The voxels with a non-zero element are the lattice points of a rectangle
+  // of half-width s_max across the LOR and half-length m_width/|tan(theta)| along it, per plane.  The assumption fails
+  //  (a) in y when one lattice step along s, max(vx|cos phi|, vy|sin phi|), exceeds the kernel half-width s_max = max(ONE of the
+  //      two voxel sizes, bin size): only possible with different x and y voxel sizes;
+  //  (b) in z when one transaxial lattice step changes the axial position of the LOR by more than a fraction of the axial
+  //      kernel: max(vx,vy)|tan(theta)| vs max(vz, axial sampling): voxels of tens of mm (toy scanners with 4..8 detectors).
+  // The row is then cut at the first gap - at the low-index end, which the symmetry operations map to the other end: the
+  // symmetry-derived row keeps the voxels the directly computed row loses and vice versa.  Excluded from oracle (2): gets that
+  // are served through a non-identity symmetry operation AND for which (a) or (b) does not hold with the margins below
+  // (oracle (1) and the validity predicate stay on for them).
+  bool interp_known_truncated(const Bin& bin) const
+  {
+    Bin basic = bin;
+    if (!m->get_symmetries_ptr()->find_basic_bin(basic))
+      return false; // served directly: object under test and reference run the same loops
+    const CartesianCoordinate3D<float> vs = img[i]->get_voxel_size();
+    const ProjDataInfo& p = *geo[g].pdi;
+    const double phi = p.get_phi(bin), tantheta = std::fabs(p.get_tantheta(bin));
+    const double step_s = std::max(vs.x() * std::fabs(std::cos(phi)), vs.y() * std::fabs(std::sin(phi)));
+    const double s_max_low = std::max(double(std::min(vs.x(), vs.y())), double(p.get_sampling_in_s(bin)));
+    const double m_max = std::max(double(vs.z()), double(p.get_sampling_in_m(bin)));
+    const bool ok_a = step_s <= s_max_low * (1 + 1e-4);
+    const bool ok_b = std::max(vs.x(), vs.y()) * tantheta <= 0.25 * m_max;
+    return !(ok_a && ok_b);
+  }
+  void reconfigure_object()
+  {
+    configure(*m, true, cache);
+    interp_pli_member = pli;
+  }
+
+  //! the property quantifies over image grids with "z-spacing = ring spacing / k".  STIR's set_up accepts a relative mismatch
+  //! of up to 1e-2 (DataSymmetriesForBins_PET_CartesianGrid.cxx:73,99: "can currently only support z-grid spacing equal to the
+  //! ring spacing of the scanner divided by an integer", tested to 1.E-2), for which the symmetry operations are only
+  //! approximate.  An image laid out for geometry A is combined with geometry B only if the relation holds to float accuracy.
+  bool commensurate(int gg, int ii) const
+  {
+    const ProjDataInfoCylindrical* cyl_pdi = dynamic_cast<const ProjDataInfoCylindrical*>(geo[gg].pdi.get());
+    if (!cyl_pdi)
+      return true;
+    const double vz = img[ii]->get_voxel_size().z();
+    auto integral = [](double r) { return std::fabs(r - std::round(r)) <= 1e-5 * std::max(1., r); };
+    if (!integral(cyl_pdi->get_ring_spacing() / vz))
+      return false;
+    for (int sg = cyl_pdi->get_min_segment_num(); sg <= cyl_pdi->get_max_segment_num(); ++sg)
+      if (!integral(cyl_pdi->get_axial_sampling(sg) / vz))
+        return false;
+    return true;
+  }
+
+  //! largest relative deviation of (axial sampling / z voxel size) and (ring spacing / z voxel size) from an integer, current geometry
+  double z_mismatch() const
+  {
+    const ProjDataInfoCylindrical* cyl_pdi = dynamic_cast<const ProjDataInfoCylindrical*>(geo[g].pdi.get());
+    if (!cyl_pdi)
+      return 0;
+    const double vz = img[i]->get_voxel_size().z();
+    auto dev = [](double r) { return std::fabs(r - std::round(r)) / std::max(1., std::round(r)); };
+    double e = dev(cyl_pdi->get_ring_spacing() / vz);
+    for (int sg = cyl_pdi->get_min_segment_num(); sg <= cyl_pdi->get_max_segment_num(); ++sg)
+      e = std::max(e, dev(cyl_pdi->get_axial_sampling(sg) / vz));
+    return e;
   }
 
   Result do_setup(int gg, int ii, const char* what)
   {
     std::string why;
+    if (kind == K_FILE)
+      { // ProjMatrixByBinFromFile::set_up error()s for any image other than the stored one and for data that are not a sub-range
+        // of the stored data ("set-up with image with wrong index range / voxel size / origin", "wrong characteristics"):
+        // every set_up event is a set_up for (geometry A, image A) again
+        gg = 0;
+        ii = 0;
+      }
     {
       // (class of the fixed defect C03-F1, replays/C03/fixed_resetup_index_range.json: same data, voxel size and origin, other index range)
       CartesianCoordinate3D<int> a0, a1, b0, b1;
@@ -407,6 +881,34 @@ struct Run
         stats().count("set_up events skipped (fresh matrix rejects the combination)");
         return Result::pass();
       }
+    if (!commensurate(gg, ii))
+      {
+        stats().count("set_up events skipped (image z spacing is not ring spacing / k for this geometry)");
+        return Result::pass();
+      }
+    if (kind == K_SPECT && !no_exclude("S2"))
+      { // FINDING C03-S2: set_up for data and image with the characteristics of the current ones "reuses" the matrix, but
+        // ProjMatrixByBin::set_up has emptied the cache (the only store) before: every row of an already computed view is empty
+        CartesianCoordinate3D<int> a0, a1, b0, b1;
+        img[i]->get_regular_range(a0, a1);
+        img[ii]->get_regular_range(b0, b1);
+        if (*geo[g].pdi == *geo[gg].pdi && img[i]->get_voxel_size() == img[ii]->get_voxel_size() && img[i]->get_origin() == img[ii]->get_origin() && a0 == b0 && a1 == b1)
+          {
+            stats().excluded_known++;
+            stats().count("excluded:C03:SPECTUB-matrix:clear_cache-or-set_up-again");
+            g = gg;
+            i = ii;
+            return Result::pass();
+          }
+      }
+    interp_before_setup(gg, ii);
+    {
+      // statistics: a second set_up whose view/segment range overlaps the previous one (VectorWithOffset::resize would keep the
+      // cache maps of the overlap if ProjMatrixByBin::set_up did not recycle them first)
+      const ProjDataInfo &p0 = *geo[g].pdi, &p1 = *geo[gg].pdi;
+      if ((g != gg || i != ii) && cache != 0 && std::max(p0.get_min_view_num(), p1.get_min_view_num()) <= std::min(p0.get_max_view_num(), p1.get_max_view_num()))
+        stats().count(cat("set_up events for another geometry/image with an overlapping view range, cache on [", kind_name(kind), "]"));
+    }
     g = gg;
     i = ii;
     m->set_up(geo[g].pdi, img[i]); // must not throw: a fresh matrix with the same settings accepted it
@@ -415,33 +917,123 @@ struct Run
   }
 
   Result get(const Bin& bin, const char* how);
+  Result compare(const SparseRow& a, const ProjMatrixElemsForOneBin& want, double tol, double kappa, const char* label, const char* stat, const std::string& ctx, double scale_floor = 0.);
+  double interp_scale();
   Result run_op(const json& op, int tier);
 };
+
+//! magnitude of the interpolation matrix for the current geometry: the largest element of the rows of the central bins
+//! (segment 0, every view, tangential positions -1..1, every axial position, central TOF bin) of the symmetry-free fresh object.
+// An element is kernel_s(<=1) x kernel_m(<=1) x Jacobian; a float rounding error d in a kernel argument changes the element by
+// <= d x Jacobian whatever the size of the row, so differences are measured against max(row maximum, this magnitude): rows that
+// only touch a voxel at the very edge of the kernel (row maximum 1e-10 of the magnitude) are not compared with themselves.
+double
+Run::interp_scale()
+{
+  const ClsKey k(g, i, -1, int(pli), int(jac), 0, 0, 0);
+  auto it = scales.find(k);
+  if (it != scales.end())
+    return it->second;
+  ProjMatrixByBin& ref0 = cls_ref(false);
+  const ProjDataInfo& p = *geo[g].pdi;
+  double mx = 0;
+  ProjMatrixElemsForOneBin row;
+  for (int v = p.get_min_view_num(); v <= p.get_max_view_num(); ++v)
+    for (int ax = p.get_min_axial_pos_num(0); ax <= p.get_max_axial_pos_num(0); ++ax)
+      for (int t = std::max(-1, p.get_min_tangential_pos_num()); t <= std::min(1, p.get_max_tangential_pos_num()); ++t)
+        {
+          ref0.get_proj_matrix_elems_for_one_bin(row, Bin(0, v, ax, t, 0));
+          for (auto e = row.begin(); e != row.end(); ++e)
+            mx = std::max(mx, double(e->get_value()));
+        }
+  scales[k] = mx;
+  return mx;
+}
+
+Result
+Run::compare(const SparseRow& a, const ProjMatrixElemsForOneBin& want, double tol, double kappa, const char* label, const char* stat, const std::string& ctx, double scale_floor)
+{
+  SparseRow b;
+  to_sparse(want, b);
+  const double mx = std::max(std::max(a.mx, b.mx), scale_floor);
+  if (mx <= 0)
+    return Result::pass();
+  const Diff d = max_diff(a, b);
+  const double rel = d.worst / mx;
+  stats().maxi(cat("max |row - ", stat, "| / row max"), rel);
+  stats().maxi(cat("max |row - ", stat, "| / row max / tolerance"), rel / tol);
+  if (rel > tol && std::getenv("C03_DUMP"))
+    {
+      std::cerr << "C03_DUMP " << label << "\n  got:";
+      for (auto& e : a.e)
+        std::cerr << " (" << std::get<0>(e.first) << "," << std::get<1>(e.first) << "," << std::get<2>(e.first) << ")=" << e.second;
+      std::cerr << "\n  ref:";
+      for (auto& e : b.e)
+        std::cerr << " (" << std::get<0>(e.first) << "," << std::get<1>(e.first) << "," << std::get<2>(e.first) << ")=" << e.second;
+      std::cerr << "\n";
+    }
+  VF_CHECK(rel <= tol, "row differs from ", label, ": voxel (z,y,x)=(", std::get<0>(d.at), ",", std::get<1>(d.at), ",", std::get<2>(d.at), ") has ", d.wa, ", reference ", d.wb, "; row max ", mx,
+           " (rel ", rel, ", tolerance ", tol, ", kappa ", kappa, "); sizes ", a.e.size(), " / ", b.e.size(), "; ", ctx);
+  return Result::pass();
+}
+
+#define C03_DO(expr)                                                                                                             \
+  do                                                                                                                             \
+    {                                                                                                                            \
+      const Result r_ = (expr);                                                                                                  \
+      if (r_.kind != Result::PASS)                                                                                               \
+        return r_;                                                                                                               \
+    }                                                                                                                            \
+  while (0)
 
 Result
 Run::get(const Bin& bin, const char* how)
 {
-  const Ref& R = ref();
   ++n_gets;
   stats().count("gets");
+  if (kind != K_RT)
+    stats().count(cat("gets [", kind_name(kind), "]"));
   double kappa = 1;
-  if (screen_bin(R, bin, kappa))
-    {
-      ++n_screened;
-      stats().count("gets screened (tie)");
-      return Result::pass();
+  const Ref* R = nullptr;
+  if (kind == K_RT || kind == K_FILE)
+    { // the tie screen belongs to the ray tracer (end points on voxel boundaries); the interpolation kernel is continuous
+      R = &ref();
+      if (screen_bin(*R, bin, kappa))
+        {
+          ++n_screened;
+          stats().count("gets screened (tie)");
+          return Result::pass();
+        }
     }
   requested.push_back(key(bin));
+  const bool tof = geo[g].pdi->is_tof_data();
+  const std::string ctx = cat(how, " ", show(bin), " [", kind_name(kind), via_parse ? "(parsed)" : "", " g", g, ",i", i, " sym=", sym[0], sym[1], sym[2], sym[3], sym[4], " cache=", cache, " lors=", lors,
+                              " cylFOV=", cyl, " adb=", effective_adb(), kind == K_INTERP ? cat(" pli=", pli, " jac=", jac) : (kind == K_SPECT ? cat(" psf=", psf, " mask=", mask, " keep=", keep) : std::string()), "] after {", trail, "}");
   // statistics: non-trivial get = served through a non-identity symmetry operation, or (potentially) from the cache after an event
   {
+    const DataSymmetriesForBins& S = *m->get_symmetries_ptr();
     Bin basic = bin;
-    const unique_ptr<SymmetryOperation> sop = m->get_symmetries_ptr()->find_symmetry_operation_from_basic_bin(basic);
+    const unique_ptr<SymmetryOperation> sop = S.find_symmetry_operation_from_basic_bin(basic);
     const bool via_sym = !sop->is_trivial();
     {
       // coverage histogram of the symmetry-operation classes (statistics only)
       std::string n = typeid(*sop).name();
       const std::size_t pos = n.find("CartesianGrid_");
       stats().cls("symmetry operation: " + (pos == std::string::npos ? (via_sym ? n : std::string("trivial")) : n.substr(pos + 14, n.size() - pos - 15)));
+    }
+    // ---- the siblings of find_symmetry_operation_from_basic_bin (DataSymmetriesForBins.h: "find_basic_bin: sets 'b' to the
+    // corresponding 'basic' bin and returns true if 'b' is changed", "is_basic", "returns the symmetry transformation from
+    // 'basic' to 'b'"): the projectors group bins with these, the matrix derives rows with the operation - they must agree
+    {
+      Bin b1 = bin;
+      const bool changed = S.find_basic_bin(b1);
+      VF_CHECK(key(b1) == key(basic), "find_basic_bin gives ", show(b1), " but find_symmetry_operation_from_basic_bin gives ", show(basic), " for ", ctx);
+      VF_CHECK(changed == (key(basic) != key(bin)), "find_basic_bin returns ", changed, " although the basic bin is ", show(basic), " for ", ctx);
+      VF_CHECK(S.is_basic(basic), "is_basic(", show(basic), ") is false for the basic bin of ", ctx);
+      VF_CHECK(S.is_basic(bin) == (key(basic) == key(bin)), "is_basic(bin) = ", S.is_basic(bin), " but the basic bin is ", show(basic), " for ", ctx);
+      Bin b3 = basic;
+      sop->transform_bin_coordinates(b3);
+      VF_CHECK(key(b3) == key(bin), "the symmetry operation maps the basic bin ", show(basic), " to ", show(b3), " instead of the requested ", ctx);
     }
     const bool again = since_event.count(key(bin)) > 0;
     const bool nt = via_sym || (cache != 0 && had_event) || (cache != 0 && again);
@@ -455,15 +1047,43 @@ Run::get(const Bin& bin, const char* how)
       {
         ++n_nontrivial;
         stats().count("gets non-trivial");
+        if (kind != K_RT)
+          stats().count(cat("gets non-trivial [", kind_name(kind), "]"));
       }
+    if (tof)
+      { // TOF path of get_proj_matrix_elems_for_one_bin: which branch can serve this request
+        stats().count(cat("TOF gets, cache mode ", cache));
+        if (cache != 0)
+          {
+            const bool basic_seen = since_event.count(key(basic)) > 0;
+            if (again)
+              stats().count(cat("TOF gets, cache mode ", cache, ": bin requested before (row from the cache)"));
+            else if (via_sym && basic_seen)
+              stats().count(cat("TOF gets, cache mode ", cache, ": related bin AFTER its basic bin"));
+            else if (!via_sym && basics_via_related.count(key(bin)) > 0)
+              stats().count(cat("TOF gets, cache mode ", cache, ": basic bin AFTER a related bin"));
+          }
+      }
+    if (via_sym)
+      basics_via_related.insert(key(basic));
     since_event.insert(key(bin));
   }
   ProjMatrixElemsForOneBin got, want;
-  m->get_proj_matrix_elems_for_one_bin(got, bin);
-  R.m->get_proj_matrix_elems_for_one_bin(want, bin);
+  if (kind == K_SPECT && !no_exclude("S1"))
+    { // FINDING C03-S1 (see REPORT): the FIRST request for a bin of a view that is not in the cache returns an EMPTY row
+      // (ProjMatrixByBinSPECTUB::calculate_proj_matrix_elems_for_one_bin computes the view into the cache and ends with
+      // lor.erase()); narrow exclusion: every request is made twice and the second answer is checked
+      m->get_proj_matrix_elems_for_one_bin(want, bin);
+      m->get_proj_matrix_elems_for_one_bin(got, bin);
+      if (want.size() == 0 && got.size() != 0)
+        {
+          stats().excluded_known++;
+          stats().count("excluded:C03:SPECTUB-matrix:first-request-of-a-view-returns-an-empty-row");
+        }
+    }
+  else
+    m->get_proj_matrix_elems_for_one_bin(got, bin);
 
-  const std::string ctx = cat(how, " ", show(bin), " [g", g, ",i", i, " sym=", sym[0], sym[1], sym[2], sym[3], sym[4], " cache=", cache, " lors=", lors, " cylFOV=", cyl,
-                              " adb=", R.adb, "] after {", trail, "}");
   // ---- validity of the returned row (independent of the differential) ---------------------------
   {
     const Bin& sb = got.get_bin();
@@ -471,95 +1091,112 @@ Run::get(const Bin& bin, const char* how)
                  && sb.tangential_pos_num() == bin.tangential_pos_num() && sb.timing_pos_num() == bin.timing_pos_num(),
              "row stores ", show(sb), " but was requested for ", ctx);
   }
-  std::vector<std::pair<std::tuple<int, int, int>, double>> a, b;
+  CartesianCoordinate3D<int> imin, imax;
+  img[i]->get_regular_range(imin, imax);
   long out_of_z = 0;
-  double mx = 0;
   for (auto it = got.begin(); it != got.end(); ++it)
     {
       const double v = it->get_value();
       VF_CHECK(v >= 0 && std::isfinite(v), "negative or non-finite element ", v, " at voxel (z,y,x)=(", it->coord1(), ",", it->coord2(), ",", it->coord3(), ") in ", ctx);
-      VF_CHECK(it->coord2() >= R.imin.y() && it->coord2() <= R.imax.y() && it->coord3() >= R.imin.x() && it->coord3() <= R.imax.x(), "element outside the image in x/y: (z,y,x)=(",
-               it->coord1(), ",", it->coord2(), ",", it->coord3(), ") value ", v, ", image y ", R.imin.y(), "..", R.imax.y(), " x ", R.imin.x(), "..", R.imax.x(), " in ", ctx);
-      if (it->coord1() < R.imin.z() || it->coord1() > R.imax.z())
+      VF_CHECK(it->coord2() >= imin.y() && it->coord2() <= imax.y() && it->coord3() >= imin.x() && it->coord3() <= imax.x(), "element outside the image in x/y: (z,y,x)=(", it->coord1(), ",",
+               it->coord2(), ",", it->coord3(), ") value ", v, ", image y ", imin.y(), "..", imax.y(), " x ", imin.x(), "..", imax.x(), " in ", ctx);
+      if (it->coord1() < imin.z() || it->coord1() > imax.z())
         ++out_of_z;
-      a.emplace_back(std::make_tuple(it->coord1(), it->coord2(), it->coord3()), v);
-      mx = std::max(mx, v);
     }
-  stats().count("elements", long(a.size()));
+  SparseRow a;
+  to_sparse(got, a);
+  stats().count("elements", long(a.e.size()));
   stats().count("elements outside the axial range (skipped by the projectors; counted, not flagged)", out_of_z);
-  std::sort(a.begin(), a.end());
-  for (std::size_t k = 1; k < a.size(); ++k)
-    VF_CHECK(a[k].first != a[k - 1].first, "voxel (z,y,x)=(", std::get<0>(a[k].first), ",", std::get<1>(a[k].first), ",", std::get<2>(a[k].first), ") occurs twice in ", ctx);
+  for (std::size_t k = 1; k < a.e.size(); ++k)
+    VF_CHECK(a.e[k].first != a.e[k - 1].first, "voxel (z,y,x)=(", std::get<0>(a.e[k].first), ",", std::get<1>(a.e[k].first), ",", std::get<2>(a.e[k].first), ") occurs twice in ", ctx);
   VF_CHECK(got.check_state() == Succeeded::yes, "check_state()==no for ", ctx);
-  // ---- differential with the directly computed row -------------------------------------------------
-  for (auto it = want.begin(); it != want.end(); ++it)
+
+  if (kind == K_SPECT)
     {
-      b.emplace_back(std::make_tuple(it->coord1(), it->coord2(), it->coord3()), double(it->get_value()));
-      mx = std::max(mx, double(it->get_value()));
+      if (a.e.empty())
+        stats().count("gets with empty row");
+      // fresh object, same settings (the cache is the only store of this class: basic-bin mode), asked twice (finding C03-S1)
+      ProjMatrixByBin& fresh = cls_ref(true);
+      fresh.get_proj_matrix_elems_for_one_bin(want, bin);
+      fresh.get_proj_matrix_elems_for_one_bin(want, bin);
+      C03_DO(compare(a, want, TOL_SAME, 1., "the row of a FRESH SPECT UB matrix with the same settings", "fresh same-settings row [spect]", ctx));
+      return Result::pass();
     }
-  std::sort(b.begin(), b.end());
-  if (a.empty() && b.empty())
+  if (kind == K_INTERP)
+    {
+      if (a.e.empty())
+        stats().count("gets with empty row");
+      // (1) fresh object, same settings, cache disabled: same arithmetic, only the history differs
+      cls_ref(true).get_proj_matrix_elems_for_one_bin(want, bin);
+      C03_DO(compare(a, want, TOL_SAME, 1., "the row of a FRESH interpolation matrix with the same settings", "fresh same-settings row [interp]", ctx));
+      // (2) fresh object, all symmetries off: "computed directly"
+      if (interp_known_anisotropic(bin))
+        { // FINDING C03-F5 (see interp_known_anisotropic)
+          if (!no_exclude("F5"))
+            {
+              stats().excluded_known++;
+              stats().count("excluded:C03:interpolation-matrix:anisotropic-xy-voxels:view-beyond-135-degrees");
+              return Result::pass();
+            }
+          stats().count("known class executed: interpolation matrix, anisotropic xy voxels, view beyond 135 degrees");
+        }
+      if (interp_known_truncated(bin))
+        { // FINDING C03-F7 (see interp_known_truncated)
+          if (!no_exclude("F7"))
+            {
+              stats().excluded_known++;
+              stats().count("excluded:C03:interpolation-matrix:voxels-not-connected:row-via-symmetry");
+              return Result::pass();
+            }
+          stats().count("known class executed: interpolation matrix, non-zero voxels not connected, row derived through a symmetry");
+        }
+      cls_ref(false).get_proj_matrix_elems_for_one_bin(want, bin);
+      C03_DO(compare(a, want, tol_interp_symfree(), 1., "the directly computed row (fresh interpolation matrix, all symmetries off)", "direct row [interp]", ctx, interp_scale()));
+      return Result::pass();
+    }
+  if (kind == K_FILE)
+    {
+      // (1) the matrix that was written: fresh cache-free ray-tracing matrix with the switches the file was written with
+      cls_ref(true).get_proj_matrix_elems_for_one_bin(want, bin);
+      C03_DO(compare(a, want, TOL_SAME, kappa, "the row of the ray-tracing matrix the file was written from", "written row [file]", ctx));
+    }
+  // ---- differential with the directly computed row (ray tracing, no symmetries, no cache) ---------------------
+  R->m->get_proj_matrix_elems_for_one_bin(want, bin);
+  SparseRow b;
+  to_sparse(want, b);
+  const double mx = std::max(a.mx, b.mx);
+  if (a.e.empty() && b.e.empty())
     stats().count("gets with empty row");
-  double worst = 0;
-  std::tuple<int, int, int> worst_at(0, 0, 0);
-  double wa = 0, wb = 0;
-  for (std::size_t ia = 0, ib = 0; ia < a.size() || ib < b.size();)
-    {
-      double va = 0, vb = 0;
-      std::tuple<int, int, int> at;
-      if (ib >= b.size() || (ia < a.size() && a[ia].first < b[ib].first))
-        {
-          at = a[ia].first;
-          va = a[ia++].second;
-        }
-      else if (ia >= a.size() || b[ib].first < a[ia].first)
-        {
-          at = b[ib].first;
-          vb = b[ib++].second;
-        }
-      else
-        {
-          at = a[ia].first;
-          va = a[ia++].second;
-          vb = b[ib++].second;
-        }
-      if (std::fabs(va - vb) > worst)
-        {
-          worst = std::fabs(va - vb);
-          worst_at = at;
-          wa = va;
-          wb = vb;
-        }
-    }
   if (mx > 0)
     {
-      const double rel = worst / mx;
-      stats().maxi(geo[g].pdi->is_tof_data() ? "max |row - direct row| / row max (TOF)" : "max |row - direct row| / row max (non-TOF)", rel);
+      const Diff d = max_diff(a, b);
+      const double rel = d.worst / mx;
+      stats().maxi(tof ? "max |row - direct row| / row max (TOF)" : "max |row - direct row| / row max (non-TOF)", rel);
       if (kappa < 30)
-        stats().maxi("max |row - direct row| / row max, well-conditioned rays (kappa<30)", rel);
+        stats().maxi(kind == K_FILE ? "max |row - direct row| / row max, well-conditioned rays (kappa<30) [file]" : "max |row - direct row| / row max, well-conditioned rays (kappa<30)", rel);
       else
-        stats().maxi("max |row - direct row| / row max / kappa, kappa>=30", rel / kappa);
+        stats().maxi(kind == K_FILE ? "max |row - direct row| / row max / kappa, kappa>=30 [file]" : "max |row - direct row| / row max / kappa, kappa>=30", rel / kappa);
       stats().maxi("max kappa", kappa);
-      const double tol = row_tolerance(kappa);
-      stats().maxi("max |row - direct row| / row max / tolerance", rel / tol);
+      // kind "file": data and image went through Interfile headers (about 6 significant digits), so "z spacing = axial sampling / k"
+      // holds to eps ~ 1e-6 only (rt: float division, eps <= 1e-7; commensurate() admits up to 1e-5).  The z-shift / z-mirror
+      // symmetries assume the relation exactly: a relative mismatch eps displaces plane crossings by up to eps x (number of
+      // planes) voxels, which nearly-parallel rays amplify by kappa exactly like a rounding error of that size.
+      // The same holds for the z origin, which has to be a whole number of planes (read back as e.g. -1.999994 planes).
+      const double z_off_planes = std::fabs(img[i]->get_origin().z() / img[i]->get_voxel_size().z() - std::round(img[i]->get_origin().z() / img[i]->get_voxel_size().z()));
+      const double misplaced = z_mismatch() * double(imax.z() - imin.z() + 1) + z_off_planes; // in planes
+      const double tol = kind == K_FILE ? std::max(row_tolerance(kappa), (4e-5 + 25. * misplaced) * kappa) : row_tolerance(kappa);
+      if (kind == K_FILE)
+        stats().maxi("max displacement of planes through header precision (z spacing vs axial sampling / k, z origin), in planes [file]", misplaced);
+      stats().maxi(kind == K_FILE ? "max |row - direct row| / row max / tolerance [file]" : "max |row - direct row| / row max / tolerance", rel / tol);
       if (std::getenv("C03_DEBUG") && rel > std::atof(std::getenv("C03_DEBUG")))
-        std::cerr << "C03_DEBUG rel " << rel << " at (" << std::get<0>(worst_at) << "," << std::get<1>(worst_at) << "," << std::get<2>(worst_at) << ") got " << wa << " direct " << wb
-                  << " max " << mx << " sizes " << a.size() << "/" << b.size() << " " << ctx << " phi " << geo[g].pdi->get_phi(bin) << " s " << geo[g].pdi->get_s(bin) << " tanth "
-                  << geo[g].pdi->get_tantheta(bin) << " vox " << R.voxel_size.x() << "," << R.voxel_size.y() << "," << R.voxel_size.z() << "\n";
-      VF_CHECK(rel <= tol, "row differs from the directly computed row: voxel (z,y,x)=(", std::get<0>(worst_at), ",", std::get<1>(worst_at), ",", std::get<2>(worst_at),
-               ") has ", wa, ", direct ", wb, "; row max ", mx, " (rel ", rel, ", tolerance ", tol, ", kappa ", kappa, "); sizes ", a.size(), " / ", b.size(), "; ", ctx);
+        std::cerr << "C03_DEBUG rel " << rel << " at (" << std::get<0>(d.at) << "," << std::get<1>(d.at) << "," << std::get<2>(d.at) << ") got " << d.wa << " direct " << d.wb << " max " << mx
+                  << " sizes " << a.e.size() << "/" << b.e.size() << " " << ctx << " phi " << geo[g].pdi->get_phi(bin) << " s " << geo[g].pdi->get_s(bin) << " tanth " << geo[g].pdi->get_tantheta(bin)
+                  << " vox " << R->voxel_size.x() << "," << R->voxel_size.y() << "," << R->voxel_size.z() << "\n";
+      VF_CHECK(rel <= tol, "row differs from the directly computed row: voxel (z,y,x)=(", std::get<0>(d.at), ",", std::get<1>(d.at), ",", std::get<2>(d.at), ") has ", d.wa, ", direct ", d.wb,
+               "; row max ", mx, " (rel ", rel, ", tolerance ", tol, ", kappa ", kappa, "); sizes ", a.e.size(), " / ", b.e.size(), "; ", ctx);
     }
   return Result::pass();
 }
-
-#define C03_DO(expr)                                                                                                             \
-  do                                                                                                                             \
-    {                                                                                                                            \
-      const Result r_ = (expr);                                                                                                  \
-      if (r_.kind != Result::PASS)                                                                                               \
-        return r_;                                                                                                               \
-    }                                                                                                                            \
-  while (0)
 
 Result
 Run::run_op(const json& op, int)
@@ -603,9 +1240,12 @@ Run::run_op(const json& op, int)
         m->get_symmetries_ptr()->get_related_bins(rel, basic);
         stats().count("orbits requested");
         stats().maxi("largest orbit", double(rel.size()));
-        if (arg(6) % 2)
+        const bool rev = arg(6) % 2 != 0;
+        if (rev)
           std::reverse(rel.begin(), rel.end());
         const ProjDataInfo& p = *geo[g].pdi;
+        if (p.is_tof_data() && rel.size() > 1)
+          stats().count(cat("TOF orbits, cache mode ", cache, rev ? ": reverse order (related bins first)" : ": library order (basic bin first)"));
         for (const Bin& rb : rel)
           {
             // only bins of the data set are requested
@@ -623,39 +1263,114 @@ Run::run_op(const json& op, int)
         return Result::pass();
       }
     case OP_CLEAR:
+      if (kind == K_FILE && !no_exclude("F4"))
+        { // FINDING C03-F4: the cache is the only store of a ProjMatrixByBinFromFile (see REPORT)
+          stats().excluded_known++;
+          stats().count("excluded:C03:from-file-matrix:clear_cache-or-cache-disabled");
+          return Result::pass();
+        }
+      if (kind == K_SPECT && !no_exclude("S2"))
+        { // FINDING C03-S2: the cache is the only store of a ProjMatrixByBinSPECTUB and "view already computed" survives clear_cache
+          stats().excluded_known++;
+          stats().count("excluded:C03:SPECTUB-matrix:clear_cache-or-set_up-again");
+          return Result::pass();
+        }
       m->clear_cache();
       event("clear_cache");
       return Result::pass();
     case OP_SETUP:
       return do_setup(int(((arg(1) % 2) + 2) % 2), int(((arg(2) % 2) + 2) % 2), "set_up");
+    case OP_CLONE:
+      {
+        if (kind == K_SPECT)
+          return Result::pass(); // ProjMatrixByBinSPECTUB::clone: error("... clone not implemented yet")
+        m.reset(m->clone());
+        stats().count(cat("clone events [", kind_name(kind), "]"));
+        event("clone");
+        return Result::pass();
+      }
     case OP_SYM:
       {
         const int k = int(((arg(1) % 5) + 5) % 5);
-        sym[k] = !sym[k];
+        if (kind != K_FILE && kind != K_SPECT) // (the symmetries of a matrix file are part of the file, the SPECT matrix has none: the event is a re-parse)
+          sym[k] = !sym[k];
         std::string why;
         if (!probe(g, i, why))
           { // (does not happen: the switches only ever disable checks) keep the object consistent
             sym[k] = !sym[k];
             return Result::pass();
           }
-        apply_switches(*m);
+        if (kind == K_RT && !via_parse)
+          apply_switches(rt());
+        else
+          reconfigure_object();
+        interp_before_setup(g, i);
         m->set_up(geo[g].pdi, img[i]);
-        event(cat("sym", k, "=", sym[k], "+set_up"));
+        event(cat("sym", k, "=", sym[k], kind == K_RT && !via_parse ? "" : "(parse)", "+set_up"));
         return Result::pass();
       }
     case OP_CACHE:
       {
-        cache = int(((arg(1) % 3) + 3) % 3);
-        apply_switches(*m);
-        m->set_up(geo[g].pdi, img[i]); // (documented to be skipped when nothing relevant changed)
-        event(cat("cache=", cache, "+set_up"));
+        int mode = int(((arg(1) % 3) + 3) % 3);
+        const bool no_setup = arg(2) % 2 != 0;
+        if (kind == K_FILE && mode == 0 && !no_exclude("F4"))
+          { // FINDING C03-F4 (see REPORT): with caching disabled a ProjMatrixByBinFromFile cannot store what it reads
+            stats().excluded_known++;
+            stats().count("excluded:C03:from-file-matrix:clear_cache-or-cache-disabled");
+            mode = 1 + int(((arg(1) % 2) + 2) % 2);
+          }
+        if (kind == K_SPECT && mode == 0 && !no_exclude("S3"))
+          { // FINDING C03-S3 (cache disabled: nothing is stored)
+            stats().excluded_known++;
+            stats().count("excluded:C03:SPECTUB-matrix:cache-disabled");
+            mode = 1 + int(((arg(1) % 2) + 2) % 2);
+          }
+        cache = mode;
+        apply_cache_mode(*m, cache);
+        if (!no_setup && kind == K_SPECT && !no_exclude("S2"))
+          { // FINDING C03-S2 (set_up again for the same data and image: the base class empties the cache, the rows are "reused")
+            stats().excluded_known++;
+            stats().count("excluded:C03:SPECTUB-matrix:clear_cache-or-set_up-again");
+          }
+        else if (!no_setup)
+          {
+            interp_before_setup(g, i);
+            m->set_up(geo[g].pdi, img[i]); // (ray tracing: documented to be skipped when nothing relevant changed)
+          }
+        else
+          stats().count(cat("cache mode switches without set_up [", kind_name(kind), "]"));
+        event(cat("cache=", cache, no_setup ? "" : "+set_up"));
         return Result::pass();
       }
     case OP_OPT:
       {
+        if (kind == K_FILE)
+          return Result::pass(); // (no further options)
         const int old_lors = lors;
-        const bool old_cyl = cyl;
-        if (arg(1) % 2 == 0)
+        const bool old_cyl = cyl, old_pli = pli, old_jac = jac;
+        if (kind == K_SPECT && !no_exclude("S4"))
+          { // FINDING C03-S4 (see REPORT): a ProjMatrixByBinSPECTUB that was set up with one PSF / mask type, is given another one
+            // (parse() or the setters, both reset already_setup) and is set up again does not behave like a fresh object:
+            // e.g. 2D PSF -> Geometrical stops with "Error weight3d: psf length greater than maxszb in calc_psf_bin" at the first row
+            stats().excluded_known++;
+            stats().count("excluded:C03:SPECTUB-matrix:other-psf-or-mask-type-on-a-used-object");
+            return Result::pass();
+          }
+        if (kind == K_SPECT)
+          { // (nothing a fresh object would reject)
+            if (arg(1) % 2 == 0)
+              psf = int(((arg(2) % 3) + 3) % 3);
+            else
+              mask = 1 - mask;
+          }
+        else if (kind == K_INTERP)
+          {
+            if (arg(1) % 2 == 0)
+              pli = !pli;
+            else
+              jac = !jac;
+          }
+        else if (arg(1) % 2 == 0)
           lors = 1 + int(((arg(2) % 4) + 4) % 4);
         else
           cyl = !cyl;
@@ -664,11 +1379,18 @@ Run::run_op(const json& op, int)
           {
             lors = old_lors;
             cyl = old_cyl;
+            pli = old_pli;
+            jac = old_jac;
             return Result::pass();
           }
-        apply_switches(*m);
+        if (kind == K_RT && !via_parse)
+          apply_switches(rt());
+        else
+          reconfigure_object();
+        interp_before_setup(g, i);
         m->set_up(geo[g].pdi, img[i]);
-        event(cat("lors=", lors, ",cylFOV=", cyl, "+set_up"));
+        event(kind == K_INTERP ? cat("pli=", pli, ",jac=", jac, "(parse)+set_up")
+                               : (kind == K_SPECT ? cat("psf=", psf, ",mask=", mask, "(parse)+set_up") : cat("lors=", lors, ",cylFOV=", cyl, "+set_up")));
         return Result::pass();
       }
     case OP_SWEEP:
@@ -703,6 +1425,8 @@ check(const json& c)
 {
   vg::quiet();
   Run R;
+  R.kind = kind_of(c);
+  R.via_parse = c.value("via_parse", false);
   try
     {
       R.geo[0].sc = vg::make_scanner(c["scA"]);
@@ -725,20 +1449,107 @@ check(const json& c)
   R.lors = c["lors"].get<int>();
   R.cyl = c["cyl_fov"].get<bool>();
   R.adb = c["adb"].get<bool>();
+  if (R.kind != K_RT)
+    R.adb = false; // (a ray-tracing option)
+  if (R.kind == K_INTERP)
+    {
+      R.pli = c.value("pli", true);
+      R.jac = c.value("jac", true);
+      R.lors = 1;
+      R.cyl = true;
+    }
+  if ((R.kind == K_FILE || R.kind == K_SPECT) && R.cache == 0 && !no_exclude(R.kind == K_FILE ? "F4" : "S3"))
+    R.cache = 1; // (excluded classes C03-F4 / C03-S3, see OP_CACHE; generated cases never have it)
+  if (R.kind == K_SPECT)
+    {
+      R.psf = c.value("psf", 0);
+      R.mask = c.value("mask", 0);
+      R.keep = c.value("keep", true);
+      R.lors = 1;
+      R.cyl = true;
+    }
+  if (R.kind == K_FILE)
+    {
+      // ProjMatrixByBinFromFile::set_up compares the data and the image EXACTLY with the templates it read from Interfile
+      // headers (operator>= / != on floats), and headers carry about 6 significant digits: the geometry and the image of a
+      // "file" case are what a user of a matrix file has - objects that were read from Interfile headers themselves.
+      try
+        {
+          R.dir.reset(new CaseDir());
+          {
+            shared_ptr<ExamInfo> ex(new ExamInfo);
+            ProjDataInterfile tmp(ex, R.geo[0].pdi, R.dir->path + "/stage1_proj_data");
+          }
+          shared_ptr<ProjData> pd = ProjData::read_from_file(R.dir->path + "/stage1_proj_data.hs");
+          R.geo[0].pdi.reset(pd->get_proj_data_info_sptr()->clone());
+          std::string fn = R.dir->path + "/stage1_image";
+          if (OutputFileFormat<DiscretisedDensity<3, float>>::default_sptr()->write_to_file(fn, *R.img[0]) != Succeeded::yes)
+            return Result::reject("cannot write the template image");
+          shared_ptr<DiscretisedDensity<3, float>> d(read_from_file<DiscretisedDensity<3, float>>(fn));
+          R.img[0] = dynamic_pointer_cast<VoxelsOnCartesianGrid<float>>(d);
+          if (!R.img[0])
+            return Result::reject("template image is not a VoxelsOnCartesianGrid");
+          R.geo[1] = R.geo[0];
+          R.img[1] = R.img[0];
+        }
+      catch (const stir_verif::AssertionFailure&)
+        {
+          throw;
+        }
+      catch (const std::exception& e)
+        {
+          return Result::reject(std::string("templates rejected: ") + std::string(e.what()).substr(0, 60));
+        }
+    }
   {
     std::string why;
     if (!R.probe(0, 0, why))
       return Result::reject("set_up rejected: " + why.substr(0, 60));
   }
-  R.m.reset(new ProjMatrixByBinUsingRayTracing());
-  R.m->set_use_actual_detector_boundaries(R.adb);
-  R.apply_switches(*R.m);
+  if (R.kind == K_FILE)
+    {
+      // the library writes the matrix itself: ProjMatrixByBinFromFile::write_to_file from a ray-tracing matrix with the switches of the case
+      R.dir.reset(new CaseDir());
+      ProjMatrixByBinUsingRayTracing src;
+      R.apply_switches(src, true, 1);
+      src.set_up(R.geo[0].pdi, R.img[0]);
+      const std::string prefix = R.dir->path + "/matrix";
+      if (ProjMatrixByBinFromFile::write_to_file(prefix, src, R.geo[0].pdi, *R.img[0]) != Succeeded::yes)
+        return Result::fail("ProjMatrixByBinFromFile::write_to_file returned Succeeded::no");
+      R.hpm = prefix + ".hpm";
+      {
+        // SIDE FINDING (not a clause of C03, see REPORT): write_to_file records "template proj data filename" WITHOUT the
+        // ".hs" extension that ProjDataInterfile adds to the file it creates, so post_processing() of the reading class cannot
+        // open it ("Error opening file ..._template_proj_data"): the header as written cannot be read back.  The harness
+        // completes the file name (one line of the header), everything else is used as the library wrote it.
+        std::ifstream in(R.hpm);
+        std::stringstream all;
+        all << in.rdbuf();
+        std::string h = all.str();
+        const std::string needle = "_template_proj_data\n";
+        const std::size_t pos = h.find(needle);
+        if (pos != std::string::npos)
+          {
+            h.replace(pos, needle.size(), "_template_proj_data.hs\n");
+            stats().count("matrix file headers completed by the harness (template proj data filename lacks .hs)");
+          }
+        in.close();
+        std::ofstream o(R.hpm);
+        o << h;
+      }
+    }
+  R.m = R.make_object(true, R.cache);
+  R.interp_pli_member = R.pli;
+  R.interp_before_setup(0, 0);
   R.m->set_up(R.geo[0].pdi, R.img[0]);
 
   // class histogram
   {
     const ProjDataInfo& p = *R.geo[0].pdi;
+    stats().cls(cat("matrix class: ", kind_name(R.kind), R.via_parse ? " (configured through parse())" : ""));
     stats().cls(p.is_tof_data() ? "geometry A: TOF" : "geometry A: non-TOF");
+    if (p.is_tof_data())
+      stats().cls(cat("geometry A: TOF [", kind_name(R.kind), "]"));
     if (dynamic_cast<const ProjDataInfoCylindricalArcCorr*>(&p))
       stats().cls("geometry A: arc-corrected");
     if (c["pdiA"]["span"].get<int>() > 1)
@@ -750,12 +1561,23 @@ check(const json& c)
     if (std::fabs(p.get_phi(Bin(0, 0, 0, 0))) > 1e-4)
       stats().cls("geometry A: view offset (tilt)");
     stats().cls(cat("cache mode ", R.cache));
-    stats().cls(cat("tangential LORs ", R.lors));
-    stats().cls(R.cyl ? "cylindrical FOV" : "square FOV");
+    if (R.kind != K_RT)
+      stats().cls(cat("cache mode ", R.cache, " [", kind_name(R.kind), "]"));
+    if (R.kind == K_SPECT)
+      stats().cls(cat("SPECT UB matrix: psf type ", R.psf, ", mask ", R.mask, ", keep_all_views_in_cache ", R.keep));
+    else if (R.kind != K_INTERP)
+      {
+        stats().cls(cat("tangential LORs ", R.lors));
+        stats().cls(R.cyl ? "cylindrical FOV" : "square FOV");
+      }
+    else
+      stats().cls(cat("interpolation matrix: piecewise linear requested ", R.pli, R.interp_pli_fits(0, 0) ? " (fits image A)" : " (switched off for image A)", ", exact Jacobian ", R.jac));
     if (R.adb)
       stats().cls("use_actual_detector_boundaries requested");
     const int nsym = R.sym[0] + R.sym[1] + R.sym[2] + R.sym[3] + R.sym[4];
     stats().cls(cat("symmetry switches on: ", nsym));
+    if (R.kind != K_RT)
+      stats().cls(cat("symmetry switches on: ", nsym, " [", kind_name(R.kind), "]"));
     const auto vs = R.img[0]->get_voxel_size();
     if (std::fabs(vs.x() - vs.y()) > 2e-3)
       stats().cls("image A: anisotropic xy voxels");
@@ -782,21 +1604,72 @@ check(const json& c)
   return res;
 }
 
+// ---- known classes (excluded by construction, counted; VERIF_NO_EXCLUDE=1 switches the exclusion off) ----------------
+// (a) known finding of C04 "C04:interpolation-matrix:sym90:image-nx!=ny" (known/C04/interpolation_sym90_nonsquare_image.json):
+//     ProjMatrixByBinUsingInterpolation limits the voxels of a basic row to the symmetric part of the x range and of the y
+//     range SEPARATELY; the x<->y swap of do_symmetry_90degrees_min_phi then gives voxels outside an image with nx != ny.
+//     It breaks this property's clause "refers to a voxel inside the image" as well; same signature, same exclusion.
+bool
+may_enable_sym90(const json& c)
+{
+  if (c["sym"][std::size_t(0)].get<int>() != 0)
+    return true;
+  for (const json& op : c["ops"])
+    if (op.is_array() && op.size() >= 2 && op[0].is_number() && op[0].get<int>() == OP_SYM && op[1].is_number() && ((op[1].get<long>() % 5) + 5) % 5 == 0)
+      return true;
+  return false;
+}
+bool
+in_known_class_interp_nonsquare(const json& c)
+{
+  if (kind_of(c) != K_INTERP || !may_enable_sym90(c))
+    return false;
+  return c["imgA"]["nx"].get<int>() != c["imgA"]["ny"].get<int>() || c["imgB"]["nx"].get<int>() != c["imgB"]["ny"].get<int>();
+}
+// (b) FINDING C03-F6 (see REPORT): the matrix file format of ProjMatrixByBinFromFile has no timing position (write_lor /
+//     read_lor store segment, view, axial and tangential position only) and write_to_file loops over timing position 0 only,
+//     but neither write_to_file nor set_up rejects TOF data: every row of a TOF bin other than 0 comes back EMPTY.
+bool
+in_known_class_file_tof(const json& c)
+{
+  if (kind_of(c) != K_FILE)
+    return false;
+  const int mash = c["pdiA"]["tof_mash"].get<int>();
+  const int poss = c["scA"].value("tof_poss", 0);
+  return mash > 0 && poss > 0 && poss / mash > 1;
+}
+std::string
+known_signature(const json& c)
+{
+  if (!no_exclude("C04") && in_known_class_interp_nonsquare(c))
+    return "C04:interpolation-matrix:sym90:image-nx!=ny";
+  if (!no_exclude("F6") && in_known_class_file_tof(c))
+    return "C03:from-file-matrix:TOF-data";
+  return "";
+}
+
 // ---- generator -----------------------------------------------------------------------------------
 json
-gen_config(Src& s, int size)
+gen_config(Src& s, int size, Kind kind = K_RT)
 {
   json c;
   vg::ScannerOpts so;
   so.max_ndet = size < 35 ? 24 : 48;
   so.max_rings = size < 35 ? 3 : 5;
-  so.allow_tof = true;
-  so.allow_blocks = false;
+  if (kind != K_RT)
+    { // the interpolation matrix visits every voxel of the planes a bin sees; a matrix file is written and read per case
+      so.max_ndet = size < 35 ? 16 : 32;
+      so.max_rings = 3;
+    }
+  so.allow_tof = kind != K_SPECT;
+  so.allow_blocks = false; // (ProjMatrixByBinUsingInterpolation: "needs ProjDataInfoCylindrical for jacobian"; blocks are exercised in C04)
   so.allow_tilt = true;
   vg::PdiOpts po;
   po.allow_arccorr = true;
   vg::ImageOpts io;
   io.max_xy = size < 50 ? 17 : 33;
+  if (kind != K_RT)
+    io.max_xy = size < 50 ? 11 : 17;
   // bias (not a restriction): half of the cases get the geometry class in which all five symmetries can be active
   // (no view offset, number of views a multiple of 4, non-TOF) - DataSymmetriesForBins_PET_CartesianGrid disables them otherwise
   const bool want_full_sym = s.coin();
@@ -832,13 +1705,74 @@ gen_config(Src& s, int size)
   c["lors"] = int(s.small(1, 4));
   c["cyl_fov"] = s.chance(3, 4);
   c["adb"] = s.chance(1, 8);
+  // (the choices below are made after all choices of the ray-tracing configuration so that the fixed seeds of the
+  // enumerated geometries keep giving the same geometries)
+  if (kind != K_RT)
+    {
+      c["kind"] = kind_name(kind);
+      c["adb"] = false;
+    }
+  if (kind == K_INTERP)
+    {
+      c["pli"] = s.chance(2, 3);
+      c["jac"] = s.chance(2, 3);
+      c["lors"] = 1;
+      c["cyl_fov"] = true;
+      if (s.chance(1, 2))
+        { // bias: geometry B shares the view/segment ranges of geometry A (the cache of ProjMatrixByBin is a table over view x segment)
+          c["scB"] = c["scA"];
+          c["pdiB"] = c["pdiA"];
+          c["imgB_ref"] = 1;
+        }
+    }
+  if (kind == K_SPECT)
+    {
+      // ProjMatrixByBinSPECTUB::set_up: single-segment arc-corrected data (it dynamic_casts to ProjDataInfoCylindricalArcCorr and
+      // uses segment 0 only), error()s "only works with equal z-sampling for projection data and image" and "equal number of
+      // slices"; it reads ONE transaxial voxel size (voxel_size.x()) for x and y
+      for (const char* pk : { "pdiA", "pdiB" })
+        {
+          c[pk]["span"] = 1;
+          c[pk]["max_delta"] = 0;
+          c[pk]["arccorr"] = true;
+          c[pk]["tof_mash"] = 0;
+          c[pk]["trim"] = json::object();
+        }
+      for (const char* ik : { "imgA", "imgB" })
+        {
+          c[ik]["vy_same"] = true;
+          c[ik]["z_div"] = 1;
+          c[ik]["nz_extra"] = 0;
+          c[ik]["z_shift_planes"] = 0;
+        }
+      c["psf"] = int(s.range(0, 2));
+      c["mask"] = int(s.range(0, 1));
+      c["keep"] = s.chance(2, 3);
+      c["lors"] = 1;
+      c["cyl_fov"] = true;
+    }
+  if (kind == K_FILE)
+    { // a matrix file belongs to ONE geometry and image (ProjMatrixByBinFromFile::set_up error()s otherwise)
+      c["scB"] = c["scA"];
+      c["pdiB"] = c["pdiA"];
+      c["imgB"] = c["imgA"];
+      c["imgB_ref"] = 0;
+    }
   return c;
 }
 
 json
 gen(Src& s, int size)
 {
-  json c = gen_config(s, size);
+  const long kr = s.range(0, 99);
+  // the matrix-file and SPECT-UB classes are implemented (kinds K_FILE, K_SPECT) but NOT generated: they are outside the anchor files of C03
+  // and their defects (empty rows after clear_cache / with the cache disabled, TOF data accepted by the file format, ...) are not findings
+  // of this property; set C03_ALL_KINDS=1 to generate them for exploration
+  static const bool all_kinds = std::getenv("C03_ALL_KINDS") != nullptr;
+  const Kind kind = all_kinds ? (kr < 47 ? K_RT : (kr < 78 ? K_INTERP : (kr < 93 ? K_FILE : K_SPECT))) : (kr < 58 ? K_RT : K_INTERP);
+  json c = gen_config(s, size, kind);
+  if (kind == K_RT && s.chance(1, 5))
+    c["via_parse"] = true;
   shared_ptr<Scanner> scA = vg::make_scanner(c["scA"]);
   // (only used to bias the bin choice towards the special views / central tangential positions of geometry A)
   const int nv = c["pdiA"]["views"].get<int>();
@@ -857,61 +1791,97 @@ gen(Src& s, int size)
         op.push_back(s.chance(1, 3) ? long(ntang / 2) + s.range(-1, 1) : s.range(0, 63));
         op.push_back(s.range(0, 20));
       };
-      if (r < 22)
+      bool reget_next = false;
+      if (r < 20)
         {
           op.push_back(OP_GET);
           bin_args();
         }
-      else if (r < 44)
+      else if (r < 41)
         {
           op.push_back(OP_GETN);
           op.push_back(long(s.seed64() & 0xffffffffULL));
           op.push_back(s.range(1, 10 + size / 2));
         }
-      else if (r < 54)
+      else if (r < 50)
         {
           op.push_back(OP_REGET);
           op.push_back(s.range(0, 50));
           op.push_back(s.range(1, 20));
         }
-      else if (r < 66)
+      else if (r < 62)
         {
           op.push_back(OP_ORBIT);
           bin_args();
           op.push_back(s.range(0, 1));
         }
-      else if (r < 73)
+      else if (r < 68)
         op.push_back(OP_CLEAR);
-      else if (r < 82)
+      else if (r < 79)
         {
           op.push_back(OP_SETUP);
           op.push_back(s.range(0, 1));
           op.push_back(s.range(0, 1));
+          reget_next = s.coin(); // the bins requested before the set_up, again (same coordinates where the new ranges allow)
         }
-      else if (r < 89)
+      else if (r < 86)
         {
           op.push_back(OP_SYM);
           op.push_back(s.range(0, 4));
         }
-      else if (r < 95)
+      else if (r < 92)
         {
           op.push_back(OP_CACHE);
           op.push_back(s.range(0, 2));
+          op.push_back(s.range(0, 1));
         }
-      else
+      else if (r < 96)
         {
           op.push_back(OP_OPT);
           op.push_back(s.range(0, 1));
           op.push_back(s.range(0, 3));
         }
+      else
+        op.push_back(OP_CLONE);
       ops.push_back(op);
+      if (reget_next)
+        ops.push_back(json::array({ int(OP_REGET), s.range(0, 30), s.range(5, 30) }));
     }
   c["ops"] = ops;
+  if (!no_exclude(kind == K_FILE ? "F4" : "S3") && (kind == K_FILE || kind == K_SPECT) && c["cache"].get<int>() == 0)
+    { // excluded by construction (findings C03-F4 / C03-S3: the cache is the only store of these two classes)
+      c["cache"] = int(s.range(1, 2));
+      stats().excluded_known++;
+      stats().count(kind == K_FILE ? "excluded:C03:from-file-matrix:clear_cache-or-cache-disabled" : "excluded:C03:SPECTUB-matrix:cache-disabled");
+    }
+  if (!no_exclude("F6") && in_known_class_file_tof(c))
+    { // excluded by construction (finding C03-F6, see known_signature): non-TOF data for matrix files
+      c["pdiA"]["tof_mash"] = 0;
+      c["pdiB"]["tof_mash"] = 0;
+      stats().excluded_known++;
+      stats().count("excluded:C03:from-file-matrix:TOF-data (generator: data made non-TOF)");
+    }
+  if (!no_exclude("C04") && in_known_class_interp_nonsquare(c))
+    { // excluded by construction (known finding, see known_signature): square images for this class
+      c["imgA"]["ny"] = c["imgA"]["nx"];
+      c["imgB"]["ny"] = c["imgB"]["nx"];
+      stats().excluded_known++;
+      stats().count("excluded:C04:interpolation-matrix:sym90:image-nx!=ny (generator: images made square)");
+    }
   return c;
 }
 
 // ---- bounded-exhaustive part: ALL bins of fixed geometries x 2^5 switches x cache modes x LORs ---------------
 // geometries are drawn once from fixed seeds (deterministic), kept if a fresh matrix accepts them and they have <= 4000 bins
+long
+count_bins(const ProjDataInfo& pdi)
+{
+  long nb = 0;
+  for (int sg = pdi.get_min_segment_num(); sg <= pdi.get_max_segment_num(); ++sg)
+    nb += long(pdi.get_num_axial_poss(sg)) * pdi.get_num_views() * pdi.get_num_tangential_poss() * pdi.get_num_tof_poss();
+  return nb;
+}
+
 const std::vector<json>&
 sweep_geometries(int tier)
 {
@@ -933,9 +1903,7 @@ sweep_geometries(int tier)
         {
           shared_ptr<Scanner> sc = vg::make_scanner(c["scA"]);
           shared_ptr<ProjDataInfo> pdi = vg::make_pdi(sc, c["pdiA"]);
-          long nb = 0;
-          for (int sg = pdi->get_min_segment_num(); sg <= pdi->get_max_segment_num(); ++sg)
-            nb += long(pdi->get_num_axial_poss(sg)) * pdi->get_num_views() * pdi->get_num_tangential_poss() * pdi->get_num_tof_poss();
+          const long nb = count_bins(*pdi);
           if (nb > 4000 || nb < 200)
             continue;
           auto img = vg::make_image(c["imgA"], *pdi);
@@ -976,13 +1944,138 @@ sweep_geometries(int tier)
   return out;
 }
 
+// geometries for the other matrix classes: kind "interp" (two images on one data geometry: the second sweep runs after a
+// set_up of the used object for the other image) and kind "file"; slot 0 = all five symmetries possible, slot 1 = TOF
+const std::vector<json>&
+other_geometries(int tier)
+{
+  static std::vector<json> v[2];
+  std::vector<json>& out = v[tier ? 1 : 0];
+  if (!out.empty())
+    return out;
+  const std::size_t n_interp = tier ? 4 : 2, n_file = std::getenv("C03_ALL_KINDS") ? (tier ? 2 : 1) : 0;
+  for (int pass = 0; pass < 2; ++pass)
+    {
+      const Kind kind = pass == 0 ? K_INTERP : K_FILE;
+      std::size_t have = 0;
+      for (uint64_t seed = 9001 + 4000 * uint64_t(pass); have < (pass == 0 ? n_interp : n_file) && seed < 12900 + 4000 * uint64_t(pass); ++seed)
+        {
+          PrngSrc s(seed);
+          json c = gen_config(s, 40, kind);
+          c["scB"] = c["scA"];
+          c["pdiB"] = c["pdiA"];
+          c["imgB_ref"] = 0;
+          if (kind == K_INTERP)
+            { // image B: another transaxial size and another z spacing on the same data (square images: see known_signature)
+              c["imgA"]["ny"] = c["imgA"]["nx"];
+              c["imgB"] = c["imgA"];
+              c["imgB"]["nx"] = c["imgA"]["nx"].get<int>() + (c["imgA"]["nx"].get<int>() > 9 ? -2 : 2);
+              c["imgB"]["ny"] = c["imgB"]["nx"];
+              c["imgB"]["z_div"] = c["imgA"]["z_div"].get<int>() == 2 ? 1 : 2;
+              c["pli"] = true;
+              c["jac"] = true;
+            }
+          try
+            {
+              shared_ptr<Scanner> sc = vg::make_scanner(c["scA"]);
+              shared_ptr<ProjDataInfo> pdi = vg::make_pdi(sc, c["pdiA"]);
+              const long nb = count_bins(*pdi);
+              if (nb > 1500 || nb < 150)
+                continue;
+              auto img = vg::make_image(c["imgA"], *pdi);
+              if (img->get_x_size() < 5 || img->get_y_size() < 5)
+                continue;
+              const bool tof = pdi->is_tof_data();
+              const bool tilt = std::fabs(pdi->get_phi(Bin(0, 0, 0, 0))) > 1e-4;
+              const auto vs = img->get_voxel_size();
+              const bool aniso = std::fabs(vs.x() - vs.y()) > 2e-3;
+              bool ok = true;
+              switch (have)
+                {
+                case 0: ok = !tof && !tilt && pdi->get_num_views() % 4 == 0 && pdi->get_num_segments() >= 3 && !aniso; break;
+                case 1: ok = kind == K_INTERP ? (tof && pdi->get_num_segments() >= 3) : (!tof && !tilt); break;
+                default: break;
+                }
+              if (!ok)
+                continue;
+              if (kind == K_INTERP)
+                {
+                  ProjMatrixByBinUsingInterpolation fresh;
+                  fresh.set_up(pdi, img);
+                  fresh.set_up(pdi, vg::make_image(c["imgB"], *pdi));
+                }
+              else
+                {
+                  ProjMatrixByBinUsingRayTracing fresh;
+                  fresh.set_up(pdi, img);
+                  ProjMatrixElemsForOneBin row;
+                  for (int sg = pdi->get_min_segment_num(); sg <= pdi->get_max_segment_num(); ++sg)
+                    fresh.get_proj_matrix_elems_for_one_bin(row, Bin(sg, 0, pdi->get_min_axial_pos_num(sg), 0, 0));
+                }
+            }
+          catch (const std::exception&)
+            {
+              continue;
+            }
+          out.push_back(c);
+          ++have;
+        }
+    }
+  return out;
+}
+
 bool
 enumerate(uint64_t idx, int tier, json& c)
 {
   const auto& geos = sweep_geometries(tier);
   const uint64_t per_geo = tier ? 32 * 3 * 3 : 32;
-  if (idx >= per_geo * geos.size())
-    return false;
+  // (development aid: C03_ENUM_ONLY_OTHER=1 enumerates the interpolation / matrix-file part only)
+  const uint64_t n_rt = std::getenv("C03_ENUM_ONLY_OTHER") ? 0 : per_geo * geos.size();
+  if (idx >= n_rt)
+    {
+      // the other matrix classes: 2^5 switches, the cache mode cycles with the combination (quick) / x 3 cache modes (thorough)
+      const auto& og = other_geometries(tier);
+      const uint64_t per_other = tier ? 32 * 3 : 32;
+      const uint64_t j = idx - n_rt;
+      if (j >= per_other * og.size())
+        return false;
+      c = og[std::size_t(j / per_other)];
+      const uint64_t r = j % per_other;
+      json sym = json::array();
+      for (int k = 0; k < 5; ++k)
+        sym.push_back(int((r >> k) & 1));
+      c["sym"] = sym;
+      const Kind kind = kind_of(c);
+      int cm = tier ? int(r >> 5) : int((r % 32) % 3);
+      if (kind == K_FILE && cm == 0 && !no_exclude("F4"))
+        cm = 2 - int(r % 2); // (excluded class: matrix file with caching disabled, see OP_CACHE)
+      c["cache"] = cm;
+      c["tier"] = tier;
+      json ops = json::array();
+      ops.push_back(json::array({ int(OP_SWEEP), long(idx * 2654435761ULL % 1000003ULL) }));
+      if (kind == K_INTERP)
+        { // the used object is set up for the other image and swept again, then back
+          ops.push_back(json::array({ int(OP_SETUP), 0, 1 }));
+          ops.push_back(json::array({ int(OP_SWEEP), long(idx * 40503ULL % 1000003ULL) + 1 }));
+          if (r % 4 == 0)
+            {
+              ops.push_back(json::array({ int(OP_SETUP), 0, 0 }));
+              ops.push_back(json::array({ int(OP_SWEEP), long(idx * 69069ULL % 1000003ULL) + 2 }));
+            }
+        }
+      else
+        {
+          if (r % 4 == 1)
+            ops.push_back(json::array({ int(OP_CLONE) }));
+          if (r % 4 == 2)
+            ops.push_back(json::array({ int(OP_SETUP), 0, 0 }));
+          if (r % 4 == 3)
+            ops.push_back(json::array({ int(OP_CACHE), cm == 1 ? 2 : 1, 1 }));
+          ops.push_back(json::array({ int(OP_SWEEP), long(idx * 40503ULL % 1000003ULL) + 1 }));
+        }
+      c["ops"] = ops;
+      return true;
+    }
   const std::size_t gi = std::size_t(idx / per_geo);
   uint64_t r = idx % per_geo;
   c = geos[gi];
@@ -1012,10 +2105,84 @@ enumerate(uint64_t idx, int tier, json& c)
   return true;
 }
 
+// ---- fixed cases: the TOF path of get_proj_matrix_elems_for_one_bin, both cache modes x both request orders ----------
+// (only do_symmetry_shift_z survives for TOF data: the orbit of a basic bin is the set of its axial translates.)
+// Per case: every orbit is requested in library order (basic bin first, then the related bins: in the complete-cache mode the
+// related rows are derived from the CACHED basic row, which already carries the TOF kernel) or in reverse order (related bins
+// first: the basic row is computed, kernel applied, transformed and only the transformed row is cached; the basic bin comes
+// last), then the same bins again (now from the cache), then after clear_cache in the other order.
+std::vector<json>
+fixed_cases(int tier)
+{
+  std::vector<json> out;
+  json tof_rt, tof_interp;
+  for (const json& g : sweep_geometries(tier))
+    {
+      shared_ptr<Scanner> sc = vg::make_scanner(g["scA"]);
+      if (vg::make_pdi(sc, g["pdiA"])->is_tof_data())
+        {
+          tof_rt = g;
+          break;
+        }
+    }
+  for (const json& g : other_geometries(tier))
+    {
+      shared_ptr<Scanner> sc = vg::make_scanner(g["scA"]);
+      if (kind_of(g) == K_INTERP && vg::make_pdi(sc, g["pdiA"])->is_tof_data())
+        {
+          tof_interp = g;
+          break;
+        }
+    }
+  for (const json* base : { &tof_rt, &tof_interp })
+    {
+      if (base->is_null())
+        continue;
+      for (int cm = 1; cm <= 2; ++cm)
+        for (int rev = 0; rev < 2; ++rev)
+          for (int symz = 0; symz < 2; ++symz)
+            {
+              json c = *base;
+              c["sym"] = json::array({ 1, 1, 1, 1, symz }); // (the four others are switched off by the library for TOF data)
+              c["cache"] = cm;
+              c["lors"] = 1;
+              c["tier"] = tier;
+              json ops = json::array();
+              SplitMix r(uint64_t(1000 + cm * 10 + rev));
+              for (int k = 0; k < 10; ++k)
+                ops.push_back(json::array({ int(OP_ORBIT), r.range(0, 40), r.range(0, 63), 0, r.range(0, 63), r.range(0, 20), rev }));
+              ops.push_back(json::array({ int(OP_REGET), 0, 100 }));
+              ops.push_back(json::array({ int(OP_CLEAR) }));
+              for (int k = 0; k < 10; ++k)
+                ops.push_back(json::array({ int(OP_ORBIT), r.range(0, 40), r.range(0, 63), 0, r.range(0, 63), r.range(0, 20), 1 - rev }));
+              ops.push_back(json::array({ int(OP_REGET), 3, 100 }));
+              c["ops"] = ops;
+              out.push_back(c);
+            }
+    }
+  return out;
+}
+
 bool
 nontrivial(const json& c)
 {
   // Config with >= 1 symmetry switch on at some point of the history and at least one request
+  // (SPECT UB matrix, which has no symmetries: a request after a set_up / re-parse / cache switch, or a repeated request)
+  if (kind_of(c) == K_SPECT)
+    {
+      bool gets = false, ev = false;
+      for (const json& op : c["ops"])
+        {
+          if (!op.is_array() || op.empty())
+            continue;
+          const int code = op[0].get<int>();
+          if (code == OP_GET || code == OP_GETN || code == OP_ORBIT || code == OP_SWEEP)
+            gets = true;
+          if (gets && (code == OP_SETUP || code == OP_SYM || code == OP_CACHE || code == OP_OPT || code == OP_REGET))
+            ev = true;
+        }
+      return gets && ev;
+    }
   bool sym_on = false;
   for (const json& b : c["sym"])
     sym_on = sym_on || b.get<int>() != 0;
@@ -1044,6 +2211,8 @@ the_property()
   p.check = check;
   p.nontrivial = nontrivial;
   p.enumerate = enumerate;
+  p.fixed_cases = fixed_cases;
+  p.known_signature = known_signature;
   p.shrink_lists = { "ops" };
   p.rule = "history contains at least one request and at least one symmetry switch is on at some point";
   return p;
